@@ -221,7 +221,42 @@ func c17Structured(r *rand.Rand) ([]byte, string, []int) {
 		return b
 	}
 	after := [][]byte{{0xFF, 0xFB, 0x90, 0x00}, {0xFF, 0xF1, 0x50, 0x80}, []byte("fLaC\x00\x00\x00\x22"), []byte("junk junk"), {0, 0, 0, 0}, []byte("PK\x03\x04"), {}}
-	switch k := r.Intn(9); k {
+	switch k := r.Intn(10); k {
+	case 9: // MARC 21: leader (record length, base address of data), directory, 0x1E, fields
+		n := r.Intn(12)
+		var dir bytes.Buffer
+		for i := 0; i < n; i++ {
+			fmt.Fprintf(&dir, "%03d%04d%05d", 1+r.Intn(900), 5+r.Intn(40), i*20)
+		}
+		base := 24 + dir.Len() + 1
+		declared := base
+		switch r.Intn(5) {
+		case 0: // stale / inexact base address (records edited by hand or by buggy writers)
+			declared = base + 1 + r.Intn(60)
+		case 1:
+			declared = base - 1 - r.Intn(minInt(base-1, 12))
+		case 2:
+			declared = 99999
+		}
+		var body bytes.Buffer
+		for i := 0; i < n+1; i++ {
+			body.WriteString("  \x1fa" + strings.Repeat("field data ", 1+r.Intn(6)) + "\x1e")
+		}
+		body.WriteByte(0x1d)
+		total := 24 + dir.Len() + 1 + body.Len()
+		reclen := total
+		if r.Intn(4) == 0 {
+			reclen = total + []int{-1, 1, 7, 100}[r.Intn(4)]
+		}
+		var b bytes.Buffer
+		fmt.Fprintf(&b, "%05d%s%s a22%05d%s4500", reclen%100000, []string{"n", "c", "p"}[r.Intn(3)], []string{"am", "as", "gm"}[r.Intn(3)], declared%100000, []string{" a ", "   ", "1i "}[r.Intn(3)])
+		b.Write(dir.Bytes())
+		b.WriteByte(0x1e)
+		b.Write(body.Bytes())
+		if r.Intn(2) == 0 { // a second record follows
+			b.Write(b.Bytes())
+		}
+		return b.Bytes(), "marc", []int{24, base - 1, base, base + 1, declared - 1, declared, declared + 1, reclen - 1, reclen, reclen + 1}
 	case 0: // ID3v2 tag of n bytes, then something
 		n := []int{0, 10, 100, 500, 1000, 3000, 3062, 3063, 4000, 6000}[r.Intn(10)] + r.Intn(3)
 		var b bytes.Buffer
@@ -361,6 +396,36 @@ func c17Run(c *fw.Ctx, b fw.Batch) {
 				}
 				c17JudgeInput(c, "seed-mutant", m, 1536, nil)
 			}
+			// ASCII digit runs in the first 64 bytes are length / offset fields (MARC leader,
+			// tar and cpio numbers, ar sizes): rewrite each run with boundary values
+			if len(s) >= 24 {
+				hd := s
+				if len(hd) > 3000 {
+					hd = hd[:3000]
+				}
+				for i := 0; i < 64 && i < len(hd); {
+					j := i
+					for j < len(hd) && j < 80 && hd[j] >= '0' && hd[j] <= '9' {
+						j++
+					}
+					if j-i >= 3 {
+						w := j - i
+						for _, v := range []int{0, 1, 24, 25, len(hd) / 2, len(hd) - 1, len(hd), len(hd) + 1, 99999999} {
+							m := append([]byte{}, hd...)
+							num := fmt.Sprintf("%0*d", w, v)
+							if len(num) > w {
+								num = num[len(num)-w:]
+							}
+							copy(m[i:j], num)
+							c17JudgeInput(c, "seed-digit-field", m, 300, []int{v - 1, v, v + 1})
+							c.Count("digit_field_rewrites", 1)
+						}
+						i = j
+					} else {
+						i = j + 1
+					}
+				}
+			}
 		}
 	case "dictionary":
 		// tokens taken from the signature tables of the tree under test are placed
@@ -479,7 +544,7 @@ func init() {
 	fw.Register(&fw.Prop{
 		ID:    "C17",
 		Level: "exploration",
-		Rule: "inputs = every seed (first 6000 bytes), seeds with random / text / zero / other-seed tails appended (incl. one 9000-byte tail per seed swept sparsely past 4096 and 8192), seed mutants, and structured inputs whose deciding bytes sit at offsets given by length fields or at late fixed offsets (ID3v2 tags of 0-6000 bytes followed by MPEG / AAC / FLAC / junk, CRX with key+signature lengths to 6000 followed by zip or junk, multi-member tar archives from archive/tar with hostile member names, OLE with late CLSIDs, Matroska with a late DocType, hand-built zips, the TrueType -> Access hand-over, late sub-type markers, DICOM / MOBI / GIMP offsets); every short binary seed's first 2 / 4 / 8 / all bytes followed by tokens from a dictionary of all string and byte-slice literals of the signature packages, read from the tree under test at run time; DetectReader with limits next to 2^32 (skipped when less than 24 GiB of memory is available); limit sweeps of binary seeds through an oddly chunking reader, a temp file and a named pipe (stat size 0). For each input the class is computed at EVERY limit up to a dense bound (1536 / 700), sparsely beyond, around 512 / 1024 / 1152 / 3072 / 4096 and around the structure's own offsets, and at 0 as the largest; once binary, every larger limit must be binary. " +
+		Rule: "inputs = every seed (first 6000 bytes), seeds with random / text / zero / other-seed tails appended (incl. one 9000-byte tail per seed swept sparsely past 4096 and 8192), seed mutants, seeds whose ASCII digit fields in the first 64 bytes (MARC leader, tar / cpio / ar numbers) are rewritten with boundary values, and structured inputs whose deciding bytes sit at offsets given by length fields or at late fixed offsets (ID3v2 tags of 0-6000 bytes followed by MPEG / AAC / FLAC / junk, CRX with key+signature lengths to 6000 followed by zip or junk, multi-member tar archives from archive/tar with hostile member names, OLE with late CLSIDs, Matroska with a late DocType, hand-built zips, the TrueType -> Access hand-over, late sub-type markers, DICOM / MOBI / GIMP offsets, MARC 21 records with exact and inexact record lengths / base addresses); every short binary seed's first 2 / 4 / 8 / all bytes followed by tokens from a dictionary of all string and byte-slice literals of the signature packages, read from the tree under test at run time; DetectReader with limits next to 2^32 (skipped when less than 24 GiB of memory is available); limit sweeps of binary seeds through an oddly chunking reader, a temp file and a named pipe (stat size 0). For each input the class is computed at EVERY limit up to a dense bound (1536 / 700), sparsely beyond, around 512 / 1024 / 1152 / 3072 / 4096 and around the structure's own offsets, and at 0 as the largest; once binary, every larger limit must be binary. " +
 			"non-trivial = the reported leaf changes at least twice along the limit sweep; distinct = distinct (first binary leaf, limit at which it first appeared, class sequence) tuples.",
 		Assumptions: []string{
 			"text = text/plain somewhere in the hierarchy; unknown = the parentless application/octet-stream root",
